@@ -546,16 +546,25 @@ impl UndoLayerChange {
     }
 }
 
-/// Copies the cells of a snapshot that is as large as the layer back into the layer. Everything outside
-/// the layer size (content that is hidden because the layer was made smaller) is not part of the
-/// snapshot and stays as it is.
-fn restore_cells(layer: &mut Layer, snapshot: &Layer) {
+/// Copies the cells of a snapshot back into the layer at `pos`. Cells outside the layer size are not
+/// touched (content that is hidden because the layer was made smaller is not part of a snapshot and
+/// stays as it is). The cells are written directly: an operation that changed a hidden, locked or
+/// alpha locked layer has to be taken back on that layer as well.
+fn restore_cells(layer: &mut Layer, pos: Position, snapshot: &Layer) {
     for y in 0..snapshot.get_height() {
-        if layer.lines.len() <= y as usize {
-            layer.lines.resize(y as usize + 1, Line::default());
+        let ty = pos.y + y;
+        if ty < 0 || ty >= layer.get_height() {
+            continue;
+        }
+        if layer.lines.len() <= ty as usize {
+            layer.lines.resize(ty as usize + 1, Line::default());
         }
         for x in 0..snapshot.get_width() {
-            layer.lines[y as usize].set_char(x, snapshot.get_char((x, y)));
+            let tx = pos.x + x;
+            if tx < 0 || tx >= layer.get_width() {
+                continue;
+            }
+            layer.lines[ty as usize].set_char(tx, snapshot.get_char((x, y)));
         }
     }
 }
@@ -567,11 +576,7 @@ impl UndoOperation for UndoLayerChange {
 
     fn undo(&mut self, edit_state: &mut EditState) -> EngineResult<()> {
         if let Some(layer) = edit_state.buffer.layers.get_mut(self.layer) {
-            if self.pos == Position::default() && layer.get_size() == self.old_chars.get_size() {
-                restore_cells(layer, &self.old_chars);
-            } else {
-                layer.stamp(self.pos, &self.old_chars);
-            }
+            restore_cells(layer, self.pos, &self.old_chars);
             Ok(())
         } else {
             Err(EditorError::InvalidLayer(self.layer).into())
@@ -580,11 +585,7 @@ impl UndoOperation for UndoLayerChange {
 
     fn redo(&mut self, edit_state: &mut EditState) -> EngineResult<()> {
         if let Some(layer) = edit_state.buffer.layers.get_mut(self.layer) {
-            if self.pos == Position::default() && layer.get_size() == self.new_chars.get_size() {
-                restore_cells(layer, &self.new_chars);
-            } else {
-                layer.stamp(self.pos, &self.new_chars);
-            }
+            restore_cells(layer, self.pos, &self.new_chars);
             Ok(())
         } else {
             Err(EditorError::InvalidLayer(self.layer).into())
